@@ -60,6 +60,8 @@ def gen_case(rng, prop):
     if 'start' in c and 'end' in c and c['kind'] != 'bh' and c['start'] < c['end'] and c['end'] % 86400 > c['start'] % 86400 \
             and rng.random() < 0.1:
         c['start_us'] = rng.choice([1, 250000, 999999, rng.randrange(1, 10 ** 6)])
+    if 'pre' in c and rng.random() < 0.25:
+        c['flag_style'] = rng.choice(['numpy', 'int'])
     if 'start' in c and 'end' in c and c['kind'] in ('weekly', 'daily', 'eom') and rng.random() < 0.15:
         c['naive'] = True          # both ends handed over as time-zone-naive timestamps
     if 'start' in c and 'end' in c and rng.random() < 0.3:
@@ -129,22 +131,34 @@ def end_of(case):
     return t.tz_localize(None) if case.get('naive') else t
 
 
+def flag(case, name):
+    """a boolean option as callers hand it over: the Python object, a NumPy boolean (the result of a comparison on arrays) or 0/1"""
+    v = bool(case[name])
+    style = case.get('flag_style')
+    if style == 'numpy':
+        import numpy as np
+        return np.bool_(v)
+    if style == 'int':
+        return int(v)
+    return v
+
+
 def execute(case):
     k = case['kind']
     for q in case.get('prior', []):
         execute(q)
     try:
         if k == 'sim':
-            eng = DailyBusinessDaySimulationEngine(start_of(case), ts(case['end']), pre_market=case['pre'], post_market=case['post'])
+            eng = DailyBusinessDaySimulationEngine(start_of(case), ts(case['end']), pre_market=flag(case, 'pre'), post_market=flag(case, 'post'))
             first = [[xsecs(ev.ts), ev.event_type] for ev in eng]
             again = [[xsecs(ev.ts), ev.event_type] for ev in eng]      # the same engine object walked a second time
             return dict(out='ok', events=first, events_again=again)
         if k == 'weekly':
-            r = WeeklyRebalance(start_of(case), end_of(case), case['wd'], pre_market=case['pre'])
+            r = WeeklyRebalance(start_of(case), end_of(case), case['wd'], pre_market=flag(case, 'pre'))
         elif k == 'daily':
-            r = DailyRebalance(start_of(case), end_of(case), pre_market=case['pre'])
+            r = DailyRebalance(start_of(case), end_of(case), pre_market=flag(case, 'pre'))
         elif k == 'eom':
-            r = EndOfMonthRebalance(start_of(case), end_of(case), pre_market=case['pre'])
+            r = EndOfMonthRebalance(start_of(case), end_of(case), pre_market=flag(case, 'pre'))
         elif k == 'bh':
             r = BuyAndHoldRebalance(ts(case['start']))
         elif k == 'isopen':
